@@ -258,6 +258,47 @@ def wrap_who(ck, P):
     ck.floor(R, n, 4)
 
 
+def checksum_update_guard(ck, P, R="GUARD/checksum-update"):
+    """In zlib-rs the running check value is advanced inside Window::extend, so inflate() must reach that call for every
+    call that produced output.  The first disjunct of its guard is `window.size() != 0` - whether a window exists, which
+    is fixed for the life of the stream.  A guard on how much history the window holds (have/next) skips the update, and
+    with it the checksum of that call's output, for some call schedules only."""
+    fn = P.fn(Z + "inflate::inflate")
+    if not ck.anchor("fn inflate::inflate", fn):
+        return
+    ck.use_fn(fn)
+    ext = fn.live_calls(r"window::Window::extend$")
+    if not ck.anchor("Window::extend in inflate()", len(ext) == 1, where(fn)):
+        return
+    e = ext[0]
+    flags = [a[1][1] for a in fn.dominating_atoms(e.bb) if a[0] == "truth" and a[2] is True and a[1][0] == "v"]
+    if not ck.anchor("boolean guard of Window::extend in inflate()", len(flags) == 1, where(fn, e.line)):
+        return
+    flag = flags[0]
+    by_size, by_history = [], []
+    for bi, si, rv in fn.defs.get(flag, []):
+        if bi not in fn.live or rv is None or si == "call":
+            continue
+        val = fn.rvalue_expr(rv)
+        if fn.const_of(val) == 0:
+            continue
+        for a in fn.dominating_atoms(bi):
+            s_ = sig.sig(a, fn)
+            wc = {k for k in s_.calls if k.startswith("Window::")}
+            if wc == {"Window::size"} and s_.rel == "Ne" and 0 in s_.consts:
+                by_size.append(bi)
+            elif wc - {"Window::size"}:
+                by_history.append(mir.atom_str(a, fn))
+        vs = sig.sig(("truth", val, True), fn) if val[0] != "c" else None
+        if vs is not None and {k for k in vs.calls if k.startswith("Window::")} - {"Window::size"}:
+            by_history.append(mir.fmt(val, fn))
+    ck.decide(bool(by_size) and not by_history, R, "inflate:window-exists", "the update is requested whenever `window.size() != 0`",
+              "inflate() no longer requests the window/checksum update (Window::extend advances the check value) from the test "
+              "`window.size() != 0`%s: the output of some calls is left out of the checksum, so a valid trailer is rejected or a forged one "
+              "accepted for those call schedules only" % ((" - it now depends on " + "; ".join(sorted(set(by_history)))[:140]) if by_history else ""),
+              where(fn, e.line))
+
+
 def run(ck):
     P = prog("K1")
     ck.configs.add("K1")
@@ -267,6 +308,7 @@ def run(ck):
     decoders.check_rejections(ck, P, "ATOM/rejection", only_names={"trailer-check", "trailer-isize", "gzip-hcrc"})
     extend_siblings(ck, P)
     wrap_who(ck, P)
+    checksum_update_guard(ck, P)
     # the trailer arms hand over to Done/Bad only after their last input request
     from . import c04
     n = c04.handover_after_suspension(ck, P, arms={"Check", "Length"})
